@@ -101,6 +101,10 @@ def run(tier):
     # every fourth case: the user-facing calls go through the C API
     for i_, c_ in enumerate(cases):
         c_["capi"] = (i_ % 4 == 1)
+    # every sixth case: the .sol file offers only the first half of the primal values (none in every 18th)
+    for i_, c_ in enumerate(cases):
+        n_ = len(c_["sol"]["x"])
+        c_["sol"]["nx"] = n_ if i_ % 6 != 3 else (0 if i_ % 18 == 3 else n_ // 2)
     prevs = pick_prevs(cases)
     lines = run_cases(exe, cases, d, prevs)
     log("[C08] h_easy: %d records, %.1fs" % (len(lines), time.time() - t1))
